@@ -3,20 +3,13 @@
 // (seeded change C03_r3_3: `self.sign() * self.context.cubic(&abs(self).repr).value()`) is DECIDED by the contract
 // instead of being rejected as unresolved.  NOT new assumptions about sign.rs: each contract repeats the statement the
 // real method is proved against in unit float_sign (fs_abs_post, fs_sign_of, fs_sign_post; annot float/shift/*.rs).
-// TRUSTED here: only `Clone for FBig` (fbig.rs `impl Clone`: clones repr and context).
-// Needs fs_spec.rs, fs_stubs.rs (trait Abs), farith_add_stubs.rs (sgn_apply).
+// (`Clone for FBig` is in fm_fbig_clone.rs.)
+// Needs fm_fbig_clone.rs, fs_spec.rs, fs_stubs.rs (trait Abs), farith_add_stubs.rs (sgn_apply).
 pub mod dashu_base { pub use super::Abs; }
 impl<R: Round, const B: Word> Abs for FBig<R, B> {
     type Output = FBig<R, B>;
     #[verifier::external_body]
     fn abs(self) -> (r: FBig<R, B>) ensures fs_abs_post(self, r) { unimplemented!() }
-}
-impl<R: Round, const B: Word> Clone for FBig<R, B> {
-    /// float/src/fbig.rs `impl Clone for FBig`: `Self { repr: self.repr.clone(), context: self.context }`
-    #[verifier::external_body]
-    fn clone(&self) -> (r: Self)
-        ensures r.repr.significand.v() == self.repr.significand.v(), r.repr.exponent == self.repr.exponent, r.context == self.context
-    { unimplemented!() }
 }
 impl<R: Round, const B: Word> FBig<R, B> {
     #[verifier::external_body]
